@@ -90,6 +90,15 @@ def gen_case(seed, idx, tier="quick"):
         # a collection that holds nothing but variant collections (e.g. VCF-derived haplotypes)
         spec["genes"], spec["feature_collections"] = [], []
     spec["qualifiers"] = specs.gen_qualifiers(rng, keys=QUAL_KEYS, vals=QUAL_VALS, p_none=0.5)
+    rq = engine.rng_for(seed, PROP, "empty-qualifier", idx)
+    if rq.random() < 0.15:
+        # a key with no values (legal: a flag-like qualifier such as {"pseudo": []}); drawn from its own stream so that the
+        # rest of the plan is what it was (seeded r20: an export that "skips empty entries")
+        holders = [spec] + spec["genes"] + [t for g in spec["genes"] for t in g["transcripts"]] + \
+            [f for c in spec["feature_collections"] for f in c["feature_intervals"]]
+        h = rq.choice(holders)
+        h["qualifiers"] = dict(h.get("qualifiers") or {})
+        h["qualifiers"].setdefault(rq.choice(["pseudo", "flag", "note"]), [])
     if "N" not in par["genome"]["seq"].upper() and rng.random() < 0.4:
         par["genome"]["alphabet"] = rng.choice(["NT_STRICT", "NT_EXTENDED", "NT_STRICT_GAPPED", "NT_STRICT_UNKNOWN"])
     for g in spec["genes"]:
